@@ -797,8 +797,9 @@ func (ts tasks) responses(rpcLog RPCLogger) jmessages {
 		if rsp.ID == nil {
 			rsp.ID = json.RawMessage("null")
 		}
-		if task.m == nil {
-			// No method was ever assigned for this task, so it was never run.
+		if task.ctx == nil {
+			// No context was ever attached to this task, so it holds no ID
+			// reservation to release.
 			rsp.err = errTaskNotExecuted
 		}
 		if task.err == nil {
